@@ -117,21 +117,30 @@ def run(prog, ctx):
     tol_break = max_break = None
     unknown_breaks = []
     for b in breaks:
-        guards = [(g, gn) for (g, gn) in R.dominating_guards(car, b, tm0) if gn.kind == "test" and c.in_loop(gn, loop)
-                  and not (gn.ast is loop.test)]
-        gset = set()
-        for (g, gn) in guards:
-            # resolve local names to their unique reaching definitions (count variable)
-            gset.add(_resolve_names(car, g, gn, tm, normN))
-        names = {x[1] for g in gset for x in subterms(g) if x[0] == "n"}
-        if "tol" in names:
-            tol_break = (b, gset)
-        elif "max_evaluations" in names:
-            max_break = (b, gset)
-        elif "max_time" in names:
-            pass
-        else:
-            unknown_breaks.append((b, gset))
+        # the alternatives under which this break is reached: one conjunction per `if` / per disjunct of an `or`
+        alts = R.trailing_true_conjunctions(car, b, tm0, within=lambda p_: c.in_loop(p_, loop) and p_.ast is not loop.test)
+        conj_nodes = {}
+        for gn in c.nodes:
+            if gn.kind == "test" and c.in_loop(gn, loop):
+                conj_nodes.setdefault(tm0.term(gn.ast), gn)
+                from ..terms import negate as _neg
+                conj_nodes.setdefault(_neg(tm0.term(gn.ast)), gn)
+        for alt in alts:
+            gset = set()
+            for g in alt:
+                gn = conj_nodes.get(g)
+                gset.add(_resolve_names(car, g, gn, tm, normN) if gn is not None else g)
+            names = {x[1] for g in gset for x in subterms(g) if x[0] == "n"}
+            if "tol" in names:
+                tol_break = (b, gset)
+            elif "max_evaluations" in names:
+                max_break = (b, gset)
+            elif "max_time" in names:
+                pass
+            else:
+                unknown_breaks.append((b, gset))
+        if not alts:
+            unknown_breaks.append((b, set()))
     want_tol = {("cmp", "LtE", ("n", err_name), ("n", "tol")), ("cmp", "LtE", ("n", "min_evaluations"), ncall)}
     ok = tol_break is not None and tol_break[1] == want_tol
     ctx.check(ok, "C13.D2", R.key_of(car, "stop:tolerance"), car.loc(tol_break[0].ast) if tol_break else car.loc(),
@@ -161,8 +170,17 @@ def run(prog, ctx):
         for nm, brk in (("tolerance", tol_break), ("max-evaluations", max_break)):
             if brk is None:
                 continue
-            tests = [gn for (g, gn) in R.dominating_guards(car, brk[0], tm0) if gn.kind == "test" and c.in_loop(gn, loop)
-                     and gn.ast is not loop.test]
+            # the first test node of this stop rule: the earliest in-loop test whose literal takes part in the rule
+            lits = set()
+            for alt in R.trailing_true_conjunctions(car, brk[0], tm0, within=lambda p_: c.in_loop(p_, loop) and p_.ast is not loop.test):
+                lits |= set(alt)
+            from ..terms import negate as _neg2
+            tests = [gn for gn in c.nodes if gn.kind == "test" and c.in_loop(gn, loop) and gn.ast is not loop.test
+                     and (tm0.term(gn.ast) in lits or _neg2(tm0.term(gn.ast)) in lits)
+                     and any(x[0] == "n" and x[1] in ({"tolerance": "tol", "max-evaluations": "max_evaluations"}[nm],)
+                             for g_ in brk[1] for x in subterms(g_))]
+            tests = [gn for gn in tests if any(_resolve_names(car, tm0.term(gn.ast), gn, tm, normN) in brk[1] or
+                                               _resolve_names(car, _neg2(tm0.term(gn.ast)), gn, tm, normN) in brk[1] for _ in [0])]
             first = min(tests, key=lambda n: n.idx) if tests else None
             ok = first is not None and all(c.must_pass_through(en, [rn], [first]) for (_c, en) in E if c.in_loop(en, loop))
             ctx.check(ok, "C13.D2", R.key_of(car, "tested-before-refine:%s" % nm), car.loc(call),
@@ -222,13 +240,23 @@ def run(prog, ctx):
     # ------------------------------------------------------------------ D5
     sigs = {}
     for fi in gee:
-        tmf = Terms(fi.node)
-        shape = []
-        rp = R.return_paths(fi)
-        for r in sorted(rp[0] + [b for b in rp[1] if b.ast.value is not None], key=lambda n: n.lineno):
-            guards = tuple(sorted((_abstract_result(g) for (g, gn) in R.dominating_guards(fi, r, tmf) if gn.kind == "test"), key=repr))
-            shape.append((guards, _abstract_result(tmf.term(r.ast.value))))
-        sigs[fi.qual] = tuple(shape)
+        # path summaries: (facts of the path, returned term) with temporaries substituted -- independent of how the returns are
+        # merged / split and of local names; irrelevant facts (not about the reference solution) are dropped
+        ps = R.path_summaries(fi)
+        shape = set()
+        if ps is None:
+            tmf = Terms(fi.node)
+            rp = R.return_paths(fi)
+            for r in sorted(rp[0] + [b for b in rp[1] if b.ast.value is not None], key=lambda n: n.lineno):
+                guards = tuple(sorted((_abstract_result(g) for (g, gn) in R.dominating_guards(fi, r, tmf) if gn.kind == "test"), key=repr))
+                shape.add((guards, _abstract_result(tmf.term(r.ast.value))))
+        else:
+            for (facts, val) in ps:
+                if val == ("<falls-off>",):
+                    continue
+                guards = tuple(sorted((_abstract_result(g) for g in facts), key=repr))
+                shape.add((guards, _abstract_result(val)))
+        sigs[fi.qual] = tuple(sorted(shape, key=repr))
     ctx.floor("C13.D5", len(sigs), 3, "get_global_error_estimate implementations")
     ref = sorted(sigs)[0]
     for q in sorted(sigs):
